@@ -92,6 +92,55 @@ func checkC20(c *Ctx) {
 		c.Bad("R1", "observer-runner", "-", "no runner with an observer filter / system-mode switch found")
 		return
 	}
+	// the filtering method is the only place where the observer runner hands a table to client code: a table
+	// given to a callback anywhere else in the runner (a snapshot kept from earlier and replayed to a listener
+	// that registers later, say) by-passes the filter — and the mode may have changed since it was kept
+	{
+		recvT := namedOf(obs.Signature.Recv().Type())
+		seen := map[*ssa.Function]bool{}
+		var order []*ssa.Function
+		var visit func(f *ssa.Function)
+		visit = func(f *ssa.Function) {
+			if f == nil || seen[f] || !inModule(p, f) || f.Blocks == nil {
+				return
+			}
+			seen[f] = true
+			order = append(order, f)
+			for _, ci := range Calls(f) {
+				visit(ci.Common().StaticCallee())
+			}
+			for _, an := range f.AnonFuncs {
+				visit(an)
+			}
+		}
+		for _, m := range p.Methods(recvT) {
+			visit(m)
+		}
+		nOut := 0
+		for _, f := range order {
+			if f == obs || (f.Parent() != nil && f.Parent() == obs) {
+				continue
+			}
+			for _, ci := range Calls(f) {
+				cm := ci.Common()
+				if cm.IsInvoke() || cm.StaticCallee() != nil {
+					continue
+				}
+				if _, isB := cm.Value.(*ssa.Builtin); isB {
+					continue
+				}
+				for _, a := range cm.Args {
+					if typeShort(a.Type()) == "*pokertable.Table" || typeShort(a.Type()) == "*Table" {
+						nOut++
+						c.Bad("R1", "table-to-client-outside-the-filter:"+FuncName(f), p.InstrPos(ci), FuncName(f)+" hands "+p.Sym(a).Strip().String()+" to a callback: only the observer's UpdateTableState, which filters first, may show a table to the observer's client")
+					}
+				}
+			}
+		}
+		if nOut == 0 {
+			c.Ok("R1", "table-to-client-only-through-the-filter", p.Pos(obs.Pos()), fmt.Sprintf("%d function(s) of the observer runner: no other place invokes a callback with a table", len(order)))
+		}
+	}
 	tbl := obs.Params[1]
 	isFilter := func(in ssa.Instruction) bool {
 		ci, ok := in.(ssa.CallInstruction)
